@@ -124,8 +124,17 @@ proof!(6, fn c13_mismatching_attach() {
         4 => { p.segments = 2; ZeroCopyCreationError::IncompatibleNumberOfSegments }
         _ => { p.channels = 2; ZeroCopyCreationError::IncompatibleNumberOfChannels }
     };
-    let r = builder(p).create_receiver();
-    assert!(r.err() == Some(expected), "c13: mismatching attach not refused with the matching error");
+    let same_role: bool = kani::any();
+    if same_role {
+        // a second sender - mismatching or not - is refused because the role is taken, and it
+        // must not touch the role bit of the sender that is attached
+        let r = builder(p).create_sender();
+        assert!(r.err() == Some(ZeroCopyCreationError::AnotherInstanceIsAlreadyConnected),
+            "c13: second (mismatching) attach of an attached role not refused as already connected");
+    } else {
+        let r = builder(p).create_receiver();
+        assert!(r.err() == Some(expected), "c13: mismatching attach not refused with the matching error");
+    }
     assert!(destroyed() == 0 && owned() == 0 && exists(), "c13: refused mismatching attach destroyed the resource");
     assert!(!sender.is_connected(), "c13: refused mismatching attach left its role registered");
     // the attached side still works: a matching receiver can attach and gets what was sent
@@ -178,6 +187,63 @@ proof!(6, fn c13_forced_removal() {
     assert!(destroyed() == 1);
     kani::cover!(dead_is_receiver && survivor_first, "survivor left before the forced removal");
     kani::cover!(!dead_is_receiver && !survivor_first, "forced removal of the sender first");
+    canaries();
+});
+
+/// An attach racing with the detach of the other side.  The storage model fires a hook at the two
+/// points where another process can act during `create_receiver`: (1) after the existing storage
+/// was opened but before the port is registered, (2) right after the port was registered (before
+/// the compatibility checks).  At that point the attached sender detaches.
+///  * sender left before the registration: the attach must be refused as being cleaned up - it
+///    must never end up on the destroyed resource;
+///  * sender left after the registration: a matching attach succeeds on a resource that is alive,
+///    a mismatching one is refused and, being the last one out, destroys the resource;
+///  * in every case the resource is destroyed exactly once, by the last one out.
+pub static mut RACE_SENDER: Option<<Conn as ZeroCopyConnection>::Sender> = None;
+pub static mut RACE_GUARD: u8 = 2;
+
+fn hook_drop_sender() {
+    unsafe {
+        RACE_GUARD = 1;
+        let s = RACE_SENDER.take();
+        drop(s);
+    }
+}
+
+proof!(6, fn c13_attach_races_detach() {
+    unsafe {
+        RACE_SENDER = Some(builder(BASE).create_sender().unwrap());
+        let at: u8 = kani::any();
+        kani::assume(at == 1 || at == 2);
+        let mismatch: bool = kani::any();
+        let mut p = BASE;
+        if mismatch {
+            p.borrow = 2;
+        }
+        KSTORAGE_HOOK = hook_drop_sender;
+        KSTORAGE_HOOK_AT = at;
+        let r = builder(p).create_receiver();
+        KSTORAGE_HOOK_AT = 9;
+        assert!(RACE_GUARD == 1 && RACE_SENDER.is_none(), "harness: the racing detach did not run");
+        match r {
+            Ok(receiver) => {
+                assert!(at == 2 && !mismatch, "c13: attach succeeded although the connection was being torn down / mismatching");
+                assert!(destroyed() == 0 && exists(), "c13: attached to a destroyed resource");
+                assert!(!receiver.is_connected());
+                drop(receiver);
+            }
+            Err(e) => {
+                if at == 1 {
+                    assert!(e == ZeroCopyCreationError::IsBeingCleanedUp, "c13: attach racing the teardown not refused as being cleaned up");
+                } else {
+                    assert!(mismatch && e == ZeroCopyCreationError::IncompatibleMaxBorrowedSamplesPerChannelSetting);
+                }
+            }
+        }
+        assert!(destroyed() == 1 && owned() == 1 && !exists(), "c13: resource not destroyed exactly once by the last one out (leak or double destruction)");
+        kani::cover!(at == 1, "sender detached before the receiver registered");
+        kani::cover!(at == 2 && mismatch, "mismatching attacher became the last one out");
+    }
     canaries();
 });
 
